@@ -125,7 +125,7 @@ func (t *PatternType) IsAssignable(o px.Type, g px.Guard) bool {
 			return true
 		}
 		enums := et.values
-		return len(enums) > 0 && utils.MatchesAllStrings(MapToRegexps(t.regexps), enums)
+		return len(enums) > 0 && !et.caseInsensitive && utils.MatchesAllStrings(MapToRegexps(t.regexps), enums)
 	}
 	return false
 }
